@@ -45,7 +45,8 @@ THEOREM_CLASSES = {
     "C16_memoize_canonical": "main", "C16_generic_same_type": "main", "C16_memoize_once_per_class": "corollary",
     "C16_polyeval_reuse": "definitional", "C16_polyeval_same_args_one_specialisation": "main",
     "C16_polyeval_distinct_types_distinct_specialisations": "main", "C16_polyeval_comptime_values_distinguish": "main",
-    "C16_polyeval_lua_equal_values_share_refuted": "refutation", "C16_polyeval_distinct_values_partial": "corollary",
+    "C16_value_comparison_must_separate_values": "refutation", "C16_polyeval_distinct_values_partial": "corollary",
+    "C16_polyeval_signed_zero": "main",
     "C16_hygiene_resolution": "main", "C16_hygiene_no_leak": "main", "C16_restoring_pop_needed": "refutation",
     "C16_hygiene_unbound_names_fall_through_partial": "corollary",
     "C16_expand_for": "definitional", "C16_expand_loop_order": "definitional", "C16_expand_if_call": "definitional",
@@ -55,7 +56,7 @@ UNPROVED = [
     "clause 1 of the statement (code produced by ## loops / ## if / macros / #[ ]# / #| |# behaves like the hand expansion): preprocessor.lua is not modelled; the Coq expander is a specification and its theorems are definitional; the clause rests on compiling generated templates next to their expansion (stdout and emitted C modulo codenames)",
     "cross-nesting named by the quantifier (macros inside generics inside polymorphic functions): the generator nests for/if/macros inside templates and probes generics, polymorphic functions and hygiene separately, not inside one another",
     "memoize's real argument match (== with Type.__eq, shallow_compare_nomt on tables) being an equivalence: discharged only for the modelled match of generics (types by identity, values, nil: C16_generic_same_type); table arguments are covered by C07's memo stream",
-    "comptime values are compared with Lua's == (the model's value ids are ==-classes): 0.0 and -0.0 share a specialisation although the body can tell them apart - open known finding, replayed (C16_polyeval_lua_equal_values_share_refuted)",
+    "that same_comptime_value separates every pair of compile-time values code can tell apart: proved for the replayer's values (0.0 / -0.0 since cab9725: C16_polyeval_signed_zero); NaN and values with __eq metamethods are not covered",
     "that each poly evaluation yields exactly one emitted C function: read from the emitted C in the poly stream only",
     "the hygiene model has one scope chain and one statement list: that hygienize switches context.scope / statnodes to the definition's (a generic called from another block than its definition) is assumed; covered by the hygiene_nested stream only",
     "statements generated into one place (between two source statements) by different hygienized functions run in generation order: checked on every generated nesting against the implementation and against the cursor model, not a theorem (C16_hygienize_own_order is about one function's own statements)",
@@ -63,7 +64,7 @@ UNPROVED = [
     "aster.value, inject_value, concepts: through the generated programs only",
 ]
 MANIFEST_ENTRY = {
-    "text": "proof, partial (one open finding: 0.0 / -0.0 as comptime arguments share a specialisation): theorems (on hand-written models tied by probe programs) for 'same arguments -> same type' (memoize, premises discharged for the modelled match), 'same argument types -> one specialisation, different -> distinct' (eval_poly), 'free names resolve where the generic was defined, nothing leaks' (checkpoints; restoring pop since b8843bb) and 'injected statements keep their order under nesting' (cursors, 6cc3727); the headline clause 'templates behave like their hand expansion' rests on differential compilation of generated templates only (definitional theorems about the specification expander)",
+    "text": "proof, partial: theorems (on hand-written models tied by probe programs) for 'same arguments -> same type' (memoize, premises discharged for the modelled match), 'same argument types -> one specialisation, different -> distinct' (eval_poly), 'free names resolve where the generic was defined, nothing leaks' (checkpoints; restoring pop since b8843bb) and 'injected statements keep their order under nesting' (cursors, 6cc3727); the headline clause 'templates behave like their hand expansion' rests on differential compilation of generated templates only (definitional theorems about the specification expander)",
     "note": "trusted: coqc, regex/structural scrape of poly_args_matches, eval_poly, pop/set/push_checkpoint, hygienize, generalize; harness/C16/gen.py (template and probe generators, renderers, C canonicaliser); the real compiler + gcc; preprocessor.lua unmodelled",
     "technique": "Coq models of memoize / eval_poly / scope checkpoints / statement cursors + template-vs-expansion and probe programs through the real compiler",
 }
@@ -98,8 +99,13 @@ def _gen(ctx, problems):
     body = m.group(1)
     if not re.search(r"if ltype ~= rtype then\s*return false", body):
         problems.append("poly_args_matches: type comparison not found")
-    cmp_vals = bool(re.search(r"ltype\.is_comptime and traits\.is_attr\(larg\) then\s*if larg\.value ~= rarg\.value or not traits\.is_attr\(rarg\) then\s*return false", body)
-                    and re.search(r"traits\.is_attr\(larg\) and larg\.comptime then\s*if rarg\.value ~= larg\.value or not traits\.is_attr\(rarg\) then\s*return false", body))
+    val_ne = r"(?:larg\.value ~= rarg\.value|not same_comptime_value\(larg\.value, rarg\.value\))"
+    val_ne2 = r"(?:rarg\.value ~= larg\.value|not same_comptime_value\(rarg\.value, larg\.value\))"
+    cmp_vals = bool(re.search(r"ltype\.is_comptime and traits\.is_attr\(larg\) then\s*if " + val_ne + r" or not traits\.is_attr\(rarg\) then\s*return false", body)
+                    and re.search(r"traits\.is_attr\(larg\) and larg\.comptime then\s*if " + val_ne2 + r" or not traits\.is_attr\(rarg\) then\s*return false", body))
+    # a repair compares through same_comptime_value, which tells 0.0 from -0.0 (1/a == 1/b)
+    msz = re.search(r"local function same_comptime_value\(a, b\)(.*?)\nend", ty, re.S)
+    signed_zero = bool(msz and "same_comptime_value(" in body and re.search(r"1\s*/\s*a\s*==\s*1\s*/\s*b", msz.group(1)))
     if not re.search(r"function PolyFunctionType:eval_poly\(args, srcnode\)\s*local polyeval\s*if not self\.alwayspoly then\s*polyeval = self:get_poly_eval\(args\)\s*end\s*if not polyeval then\s*polyeval = \{ args = args, srcnode = srcnode\}\s*local evals = self\.evals\s*evals\[#evals\+1\] = polyeval", ty):
         problems.append("eval_poly is not the function the model mirrors")
     sc = vlib.repo_read("lualib/nelua/scope.lua")
@@ -137,9 +143,10 @@ def _gen(ctx, problems):
            "Definition POLY_COMPARES_COMPTIME_VALUES : bool := %s.\n"
            "Definition POP_CHECKPOINT_MERGES : bool := %s.\n"
            "Definition HYGIENIZE_ADJUSTS_CALLER : bool := %s.\n"
-           "Definition HYGIENIZE_USES_CURSORS : bool := %s.\n" % tuple("true" if x else "false" for x in (cmp_vals, merges, adjusts, cursors)))
+           "Definition HYGIENIZE_USES_CURSORS : bool := %s.\n"
+           "Definition POLY_DISTINGUISHES_SIGNED_ZERO : bool := %s.\n" % tuple("true" if x else "false" for x in (cmp_vals, merges, adjusts, cursors, signed_zero)))
     vlib.write_if_changed(os.path.join(vlib.coq_dir(ID), "Gen.v"), txt)
-    ctx.c16 = {"poly_compares_comptime_values": cmp_vals, "pop_checkpoint_merges": merges, "hygienize_adjusts_caller": adjusts, "hygienize_uses_cursors": cursors}
+    ctx.c16 = {"poly_compares_comptime_values": cmp_vals, "pop_checkpoint_merges": merges, "hygienize_adjusts_caller": adjusts, "hygienize_uses_cursors": cursors, "poly_distinguishes_signed_zero": signed_zero}
     return dict(ctx.c16, generalize="generic(memoize(hygienize(func)))")
 
 
@@ -243,7 +250,8 @@ def correspond(ctx):
         elif kind == "poly":
             mlines.append("poly %d %s" % (int(p[1]), "|".join("%s;1:0:1:1:%d" % (g.POLY_ARGS[a][1], n) for a, n in p[0])))
         elif kind == "polyc":
-            mlines.append("poly 0 " + "|".join("%d:0:1:1:%d;1:0:0:0:-" % (g.POLYC_ARGS[a][1], g.POLYC_ARGS[a][3]) for a in p))
+            szd = (getattr(ctx, "c16", None) or {}).get("poly_distinguishes_signed_zero")     # then every raw value is its own class
+            mlines.append("poly 0 " + "|".join("%d:0:1:1:%d;1:0:0:0:-" % (g.POLYC_ARGS[a][1], g.POLYC_ARGS[a][2 if szd else 3]) for a in p))
         elif kind == "inject":
             mlines.append(g.inject_case(*p)[0])
         else:
@@ -425,6 +433,8 @@ def correspond(ctx):
                 fm, midx = {}, []
                 for a in p:                               # the oracle with 0.0 and -0.0 taken as one value (Lua ==)
                     midx.append(fm.setdefault(g.POLYC_ARGS[a][3], len(fm)))
+                if (getattr(ctx, "c16", None) or {}).get("poly_distinguishes_signed_zero"):
+                    midx = None          # the code claims to tell them apart: nothing is explained by ==
                 only_signed_zero = r["rc"] == 0 and used == idx == midx and all(p[i] in (7, 8) for i in wrong)
                 if only_signed_zero and list(p) == SIGNED_ZERO_WITNESS:
                     zero_witness_reproduced.append(True)
